@@ -310,7 +310,14 @@ void vh_case(vh::Ctx& c) {
   gShimSeed = r.next();
   c.site(w.entry);
   std::vector<vo::Hash128> opHash;
-  for (auto& o : w.operands) opHash.push_back(vo::HashMesh(o.GetMeshGL64(), true));
+  // Observe operands through COPIES: a const query on the handle itself would
+  // replace its (op-node) root by the evaluated leaf and the alias-of-op-node
+  // operands would silently turn into plain leaves.
+  auto operandHash = [](const Manifold& o) {
+    Manifold probe(o);
+    return vo::HashMesh(probe.GetMeshGL64(), true);
+  };
+  for (auto& o : w.operands) opHash.push_back(operandHash(o));
 
   auto detail = [&](const std::string& what, long k) {
     return vh::J().s("entry", w.entry).s("desc", w.desc).s("what", what).i("cancel_at_check", k).i("checks_in_reference", M.checks)
@@ -426,7 +433,7 @@ void vh_case(vh::Ctx& c) {
     }
     // operands untouched
     for (size_t i = 0; i < w.operands.size(); i++)
-      if (vo::HashMesh(w.operands[i].GetMeshGL64(), true) != opHash[i]) {
+      if (operandHash(w.operands[i]) != opHash[i]) {
         c.violation("cancel:" + w.entry + ":operand-changed@" + site, detail("operand " + std::to_string(i) + " differs after the cancelled call", k));
         return;
       }
